@@ -383,6 +383,10 @@ func vf05Record(msg []byte) []byte {
 // vf05Reapply fingerprints the capture and builds a new hello from the fingerprint with another server name of the
 // same length and another random stream. Returns "" or the failure.
 func vf05Reapply(capture []byte, blunt bool, stream uint64) (fail string, skipped string) {
+	return vf05ReapplyOpt(capture, blunt, false, stream)
+}
+
+func vf05ReapplyOpt(capture []byte, blunt, alwaysAdd bool, stream uint64) (fail string, skipped string) {
 	hc := vfParseClientHello(capture)
 	if len(hc.Violations) > 0 {
 		return fmt.Sprintf("capture does not parse: %v", hc.Violations), ""
@@ -392,7 +396,7 @@ func vf05Reapply(capture []byte, blunt bool, stream uint64) (fail string, skippe
 		return "", "capture-without-non-empty-padding"
 	}
 	sni, hasSNI := hc.SNI()
-	spec, err := (&Fingerprinter{AllowBluntMimicry: blunt}).FingerprintClientHello(vf05Record(capture))
+	spec, err := (&Fingerprinter{AllowBluntMimicry: blunt, AlwaysAddPadding: alwaysAdd}).FingerprintClientHello(vf05Record(capture))
 	if err != nil {
 		return "", "fingerprint-error: " + err.Error()
 	}
@@ -497,4 +501,78 @@ func TestVerifC05Fingerprinted(t *testing.T) {
 		}
 		run(rt, what, raw, true, rapid.Uint64().Draw(rt, "s2"))
 	})
+}
+
+// The padding extension is never duplicated: a spec that lists it twice must be refused (or emit it once), and
+// Fingerprinter.AlwaysAddPadding must not add a second one to a padded capture (nor disturb the captured length); on an
+// unpadded capture it adds BoringSSL-style padding, which is then judged by the policy.
+func TestVerifC05NoDuplicate(t *testing.T) {
+	st := vfNewStats(t, "C05")
+	for layout := 0; layout < 3; layout++ {
+		for _, n := range []int{0, 100, 200, 400} {
+			spec := vf05Layout(layout, n, &UtlsPaddingExtension{GetPaddingLen: BoringPaddingStyle})
+			spec.Extensions = append(spec.Extensions, &UtlsPaddingExtension{GetPaddingLen: BoringPaddingStyle})
+			raw, err := vf05BuildCustom(spec, "dup.test", uint64(n))
+			st.Eval()
+			st.Class("dup:spec-with-two-padding-extensions")
+			st.NonTrivial(fmt.Sprintf("dup:%d:%d", layout, n))
+			if err != nil {
+				continue // refused: fine
+			}
+			if _, _, fail := vf05Judge(raw); fail != "" {
+				st.Violation(t, "spec with two padding extensions was accepted and gives: %s", fail)
+			}
+		}
+	}
+	for i := 0; i < 300; i++ {
+		layout := i % 3
+		n := (i * 11) % 500
+		var pad *UtlsPaddingExtension
+		switch i % 3 {
+		case 0:
+			pad = &UtlsPaddingExtension{GetPaddingLen: BoringPaddingStyle}
+		case 1:
+			pad = &UtlsPaddingExtension{PaddingLen: 1 + (i*5)%200, WillPad: true}
+		default:
+			pad = &UtlsPaddingExtension{} // WillPad false: no padding on the wire
+		}
+		capture, err := vf05BuildCustom(vf05Layout(layout, n, pad), vfDNSNameOfLen(3+i%40, 'd'), uint64(i))
+		if err != nil {
+			t.Fatal(err)
+		}
+		hc := vfParseClientHello(capture)
+		st.Eval()
+		if e := hc.Ext(21); e != nil && len(e.Body) > 0 {
+			fail, skipped := vf05ReapplyOpt(capture, true, true, uint64(i)+31337)
+			if skipped != "" {
+				st.Class("fp-skipped:" + skipped)
+				continue
+			}
+			if fail != "" {
+				st.Violation(t, "AlwaysAddPadding on a padded capture: %s", fail)
+			}
+			st.Class("dup:always-add-on-padded-capture")
+			st.NonTrivial(fmt.Sprintf("dup:aap:%d", i))
+			continue
+		}
+		if hc.Ext(21) != nil {
+			st.Class("fp-skipped:capture-with-empty-padding")
+			continue
+		}
+		spec, err := (&Fingerprinter{AllowBluntMimicry: true, AlwaysAddPadding: true}).FingerprintClientHello(vf05Record(capture))
+		if err != nil {
+			st.Class("fp-skipped:fingerprint-error")
+			continue
+		}
+		sni, _ := hc.SNI()
+		raw, err := vf05BuildCustom(spec, vfDNSNameOfLen(len(sni), 'y'), uint64(i)+4242)
+		if err != nil {
+			st.Violation(t, "AlwaysAddPadding on an unpadded capture: re-applying failed: %v", err)
+		}
+		if _, _, fail := vf05Judge(raw); fail != "" {
+			st.Violation(t, "AlwaysAddPadding on an unpadded capture (U=%d): %s", vfUnpaddedLen(hc), fail)
+		}
+		st.Class("dup:always-add-on-unpadded-capture")
+		st.NonTrivial(fmt.Sprintf("dup:aau:%d", i))
+	}
 }
